@@ -462,9 +462,11 @@ def explain(prop, tier):
     if prop in ("C02", "C09"):
         extra = " Plus loom model checking of the valid_after watermark primitive (every lock acquisition a scheduling point)." if prop == "C02" else ""
         if prop == "C09":
-            extra = " Plus E1 under a single-thread scheduler: " + EXPLAIN["seq"] + " A blocking point whose probe is false (the caller holds the lock it wants), 20000 yields without progress or 3000000 instrumented points inside one call are reported as self-deadlock / livelock instead of hanging the worker."
+            extra = " Plus the scale scenario of 1000 consecutive invalidations (more than the write log holds) with a deadline. Plus E1 under a single-thread scheduler: " + EXPLAIN["seq"] + " A blocking point whose probe is false (the caller holds the lock it wants), 20000 yields without progress or 3000000 instrumented points inside one call are reported as self-deadlock / livelock instead of hanging the worker."
         return SCHED + extra
     base = _explain(prop, tier)
+    if prop in ("C03", "C04", "C08", "C10"):
+        base += " SCALE: seven fixed scenarios on caches with u32 keys (one update needing 799 evictions in a full cache of 1000; 1000 consecutive invalidations; 70000 entries of weight u32::MAX), each on a helper thread with a deadline, followed by the physical clauses (resident weight <= capacity, counters == held, nothing that fits is missing, no panic, the calls return)."
     if prop in ("C03", "C04", "C06", "C07", "C08", "C10", "C11", "C16"):
         base += " SCHEDULES: " + SCHED
     return base
